@@ -50,6 +50,18 @@ var c13Cases = []c13Case{
 	{"input T1 { §§§ : Int }", 3, ""},
 	{"type T1 { f(§§§ : Int): Int }", 3, ""},
 	{"type §§§ { x: Int }", 3, ""},
+	// the same rules inside extensions, of the schema's own types and of the built-in ones
+	{"extend type __Type { extra: Int }", 1, ""},
+	{"extend type __Type { §§§ : Int }", 3, ""},
+	{"extend type Query { §§§ : Int }", 3, ""},
+	{"extend type Obj { f(§§§ : Int): Int }", 3, ""},
+	{"extend enum __TypeKind { §§§ }", 3, ""},
+	{"extend type __Field { f: In }", 0, ""},
+	{"extend type __Schema { f(a: Obj): Int }", 0, ""},
+	{"extend type Obj { f: In }", 0, ""},
+	{"extend input In { z: Obj }", 0, ""},
+	{"extend enum En { null }", 0, ""},
+	{"extend enum __DirectiveLocation { true }", 0, ""},
 	// references
 	{"type T1 { f: ¤ }", 0, "Nope"},
 	{"type T1 { f(a: ¤): Int }", 0, "Nope"},
